@@ -232,7 +232,7 @@ impl BitFont {
         // let flags = u32::from_le_bytes(data[12..16].try_into().unwrap());
         let length = u32::from_le_bytes(data[16..20].try_into().unwrap()) as i32;
         let charsize = u32::from_le_bytes(data[20..24].try_into().unwrap()) as i32;
-        if length * charsize + headersize as i32 != data.len() as i32 || headersize > data.len() {
+        if length < 0 || charsize <= 0 || length * charsize + headersize as i32 != data.len() as i32 || headersize > data.len() {
             return Err(FontError::LengthMismatch(data.len(), (length * charsize) as usize + headersize).into());
         }
         let height = u32::from_le_bytes(data[24..28].try_into().unwrap()) as usize;
